@@ -399,7 +399,11 @@ pub fn compound(op: &str, cur: &Val, v: &Val) -> Result<Val, &'static str> {
     }
 }
 
-fn show_text(kind: Kind, v: &Val) -> Option<String> {
+/// The rendering of a cell is not predicted as text (the output format is not part of C13): the
+/// reference is what the interpreter itself prints for a FRESH cell of the same declared type
+/// holding the model's content - `std.convert.to_string(mut T <literal>)` - so only "the rendering
+/// reflects the current content" is judged, whatever the format.
+fn show_source(kind: Kind, v: &Val) -> Option<String> {
     let ty = match kind {
         Kind::Int => "int",
         Kind::Float => "float",
@@ -409,18 +413,29 @@ fn show_text(kind: Kind, v: &Val) -> Option<String> {
         Kind::Any => "any",
         Kind::IntOrFloat | Kind::CellOfInt => return None,
     };
-    fn dbg(v: &Val) -> Option<String> {
-        Some(match v {
-            Val::Int(i) => format!("{i}"),
-            Val::Float(f) => format!("{f:?}"),
-            Val::Bool(b) => format!("{b}"),
-            Val::Str(s) => format!("{s:?}"),
-            Val::Arr(xs) => format!("[{}]", xs.iter().map(dbg).collect::<Option<Vec<_>>>()?.join(", ")),
-            Val::Void => "()".into(),
-            Val::Ref(_) => return None,
-        })
+    if matches!(v, Val::Ref(_)) {
+        return None;
     }
-    Some(format!("mut {ty} {}", dbg(v)?))
+    Some(format!("std.convert.to_string(mut {ty} {})", lit(v)))
+}
+
+thread_local! {
+    static SHOW_CACHE: std::cell::RefCell<std::collections::HashMap<String, Option<String>>> = std::cell::RefCell::new(std::collections::HashMap::new());
+}
+
+fn show_text(kind: Kind, v: &Val) -> Option<String> {
+    let src = show_source(kind, v)?;
+    if let Some(hit) = SHOW_CACHE.with(|c| c.borrow().get(&src).cloned()) {
+        return hit;
+    }
+    let interp = simplesl::Interpreter::with_stdlib();
+    let r = std::panic::catch_unwind(std::panic::AssertUnwindSafe(|| simplesl::Code::parse(&interp, &src).ok().and_then(|c| c.exec().ok())));
+    let text = match r {
+        Ok(Some(Variable::String(s))) => Some(s.to_string()),
+        _ => None,
+    };
+    SHOW_CACHE.with(|c| c.borrow_mut().insert(src, text.clone()));
+    text
 }
 
 /// Model state besides the heap.
